@@ -91,10 +91,27 @@ Definition clip_rows (margin : Z) (rows : list rect) : list rect :=
 Definition grid_of_rows (binSize margin : Z) (rows : list row) : grid :=
   make_grid binSize (clip_rows margin (map rr rows)).
 
-(* circuit.computeRows() is FreeSpace.compute_rows_circuit (C15) *)
+(* ret.updateBinCapacity(regions) on a grid that exists already: same limits, capacities recomputed *)
+Definition with_capacity (g : grid) (regions : list rect) : grid :=
+  {| limX := limX g; limY := limY g; gcap := bin_capacity (limX g) (limY g) regions |}.
+
+(* repair of finding F28, fromIspdCircuit lines 45-51: `DensityGrid ret(binSize, area); ret.updateBinCapacity({})`:
+   the grid over the rectangle `area` (DensityGrid(int, Rectangle) delegates to the region constructor with the
+   one region {area}) with the capacity of every bin set to 0 *)
+Definition make_grid_area (binSize : Z) (area : rect) : grid := with_capacity (make_grid binSize [area]) [].
+
+(* circuit.computeRows() is FreeSpace.compute_rows_circuit (C15).  When no free row segment survives the clipping
+   (clippedRows.empty(): rows covered by fixed obstructions, or only pieces not wider than twice the margin left)
+   the grid covers the bounding box of the circuit's rows (Circuit::computePlacementArea, coloquinte.cpp:261-276:
+   the same fold as placement_area) with no capacity; before the repair that case was make_grid binSize [],
+   a single empty bin at the origin *)
 Definition grid_of_circuit (binSize margin : Z) (rows : list row)
            (cells : list (Z * Z * Z * Z * Orient.orient * bool * bool)) : grid :=
-  grid_of_rows binSize margin (compute_rows_circuit rows [] cells).
+  let free := compute_rows_circuit rows [] cells in
+  match clip_rows margin (map rr free) with
+  | [] => make_grid_area binSize (placement_area (map rr rows))
+  | _ :: _ => grid_of_rows binSize margin free
+  end.
 
 Definition sumZ (l : list Z) : Z := fold_right Z.add 0 l.
 
